@@ -5,3 +5,6 @@
 
 (* the switch to the fast path is inside "if (!called) { ... if (_cffi_initialize_python() == 0) { HERE } }" *)
 Definition gen_switch_in_success : bool := true.
+
+(* _cffi_initialize_python: (the success exit, the error exit) passes PyGILState_Release(state) *)
+Definition gen_init_exits : bool * bool := (true, true).
